@@ -84,7 +84,7 @@ func walk(b *strings.Builder, v reflect.Value, sigElem bool, depth int) {
 		b.WriteString("{")
 		for i := 0; i < t.NumField(); i++ {
 			f := t.Field(i)
-			if f.Name == "Embedding" || f.Name == "Curve" {
+			if f.Name == "Embedding" || f.Name == "Curve" || f.Name == "acc" {
 				continue
 			}
 			b.WriteString(f.Name)
@@ -209,7 +209,7 @@ func shape(b *strings.Builder, v reflect.Value, depth int) {
 		}
 		b.WriteString("{")
 		for i := 0; i < t.NumField(); i++ {
-			if n := t.Field(i).Name; n == "Embedding" || n == "Curve" {
+			if n := t.Field(i).Name; n == "Embedding" || n == "Curve" || n == "acc" {
 				continue
 			}
 			shape(b, v.Field(i), depth+1)
